@@ -31,7 +31,7 @@ Local Notation k := (length (fl_crossings fb)).
 
 Variable r : run.
 (** the candidate has a level of every factor in every trial, none of them excluded *)
-Hypothesis Hcells : forall g, g < n -> exists row, rlookup r g = Some row /\ length row = T /\
+Hypothesis Hcells : forall g, In g (fl_act fb) -> exists row, rlookup r g = Some row /\ length row = T /\
   Forall (fun cell => exists l, cell = Some l /\ l < nlevels fb g /\ ~ In (FExclude g l) (fl_constraints fb)) row.
 Local Notation s := (tseq_of_run fb r).
 
@@ -41,7 +41,7 @@ Definition lev (f t : nat) : nat :=
   | None => 0
   end.
 
-Lemma lev_cell g t : g < n -> t < T ->
+Lemma lev_cell g t : In g (fl_act fb) -> t < T ->
   exists row, rlookup r g = Some row /\ length row = T /\ nth_error row t = Some (Some (lev g t)) /\
               lev g t < nlevels fb g /\ ~ In (FExclude g (lev g t)) (fl_constraints fb).
 Proof.
@@ -51,7 +51,7 @@ Proof.
   split; [rewrite (nth_error_nth' row None) by lia; rewrite El; reflexivity | split; assumption].
 Qed.
 
-Lemma Hwf : forall g, g < n -> exists row, rlookup r g = Some row /\ length row = T.
+Lemma Hwf : forall g, In g (fl_act fb) -> exists row, rlookup r g = Some row /\ length row = T.
 Proof. intros g Hg. destruct (Hcells g Hg) as (row & Hr & Hl & _). exists row. auto. Qed.
 
 Lemma rounds_eq : (eb_preamble (en_base en) + rounds_per_run fb en * eb_csize (en_base en) + en_leftover en)%Z = Z.of_nat T.
@@ -67,7 +67,8 @@ Lemma crossing_at i ci : nth_error (fl_crossings fb) i = Some ci ->
 Proof.
   intros Hi. assert (Hci : In ci (fl_crossings fb)) by (eapply nth_error_In; exact Hi).
   assert (Hik : i < k) by (apply nth_error_Some; congruence).
-  destruct (f0_cross_plain fb (f0_unpack fb HF) ci Hci) as [Hnd Hrange].
+  destruct (f0_cross_plain fb (f0_unpack fb HF) ci Hci) as [Hnd Hrange0].
+  pose proof (fun f Hf => f0_cact fb (f0_unpack fb HF) ci f Hci Hf) as Hrange.
   set (si := nth i (fl_sizes fb) 0).
   assert (Hsz : In (ci, si) (combine (fl_crossings fb) (fl_sizes fb))).
   { assert (E : nth i (combine (fl_crossings fb) (fl_sizes fb)) ([], 0) = (ci, si)).
@@ -103,7 +104,7 @@ Proof.
   - reflexivity.
   - intros t Ht. unfold combo_at, K. rewrite map_map. apply map_ext_in. intros f Hf.
     destruct (lev_cell f t (Hrange f Hf) Ht) as (row & Hr & Hl & Hn & _).
-    unfold get_cell. rewrite (wf_nth fb HF r Hwf f row (Hrange f Hf) Hr). apply nth_error_nth. exact Hn.
+    unfold get_cell. rewrite (wf_nth fb HF r Hwf f row (Hrange0 f Hf) Hr). apply nth_error_nth. exact Hn.
 Qed.
 
 (** the crossing loop over the crossings after the first *)
